@@ -11,9 +11,11 @@ import (
 	"github.com/uhppoted/uhppote-core/types"
 	"pgregory.net/rapid"
 
+	"verif/harness/collide"
 	"verif/harness/ev"
 	"verif/harness/gen"
 	"verif/harness/rp"
+	"verif/harness/spec"
 )
 
 // Bad text is rejected - whatever it looks like. A text parser (ParseDate, HHmmFromString, TimeFromString, UnmarshalTSV,
@@ -377,6 +379,7 @@ func badProps() []rp.Prop {
 	return []rp.Prop{
 		rp.P[badCase]{Name: "malformed", Checks: ev.Pick(60000, 6000000) / ev.Shards(), Gen: genBad, Check: checkBad},
 		rp.P[aliasCase]{Name: "carry-alias", Checks: ev.Pick(20000, 2000000) / ev.Shards(), Gen: genAlias, Sweep: sweepAliases, Check: checkAlias},
+		rp.P[textPair]{Name: "colliding-pairs", Sweep: sweepTextPairs, Check: checkTextPair},
 	}
 }
 
@@ -570,4 +573,104 @@ func genAlias(t *rapid.T) aliasCase {
 		as = aliasesOf(valid)
 	}
 	return aliasCase{typ, valid, as[rapid.IntRange(0, len(as)-1).Draw(t, "alias")]}
+}
+
+// hash-colliding texts: pairs of valid texts (and of a valid text with an impossible one) that collide under the usual
+// 32-bit hashes are parsed one after the other - a parse cache keyed on a hash of the text confuses them
+type textPair struct {
+	Hash string `json:"hash"`
+	Type string `json:"type"`
+	A    string `json:"a"`
+	B    string `json:"b"`
+}
+
+func textValid(typ, s string) bool {
+	var y, m, d, h, mi, sec int
+	switch typ {
+	case "Date", "ParseDate":
+		if n, _ := fmt.Sscanf(s, "%04d-%02d-%02d", &y, &m, &d); n != 3 {
+			return false
+		}
+		return spec.ValidDate(y, m, d)
+	case "DateTime":
+		if n, _ := fmt.Sscanf(s, "%04d-%02d-%02d %02d:%02d:%02d", &y, &m, &d, &h, &mi, &sec); n != 6 {
+			return false
+		}
+		return spec.ValidDate(y, m, d) && h < 24 && mi < 60 && sec < 60
+	case "SystemTime":
+		if n, _ := fmt.Sscanf(s, "%02d:%02d:%02d", &h, &mi, &sec); n != 3 {
+			return false
+		}
+		return h < 24 && mi < 60 && sec < 60
+	}
+	return false
+}
+
+func sweepTextPairs(yield func(textPair) bool) {
+	var dates, dts, times []string
+	for y := 1600; y < 2400; y++ {
+		if !ev.Thorough() && y%2 == 1 && (y < 1990 || y > 2040) {
+			continue
+		}
+		for m := 1; m <= 12; m++ {
+			for d := 1; d <= 31; d++ { // days 29..31 of short months are the impossible dates of the reject side
+				dates = append(dates, fmt.Sprintf("%04d-%02d-%02d", y, m, d))
+			}
+		}
+	}
+	n := 0
+	for y := 2020; y <= 2026; y++ {
+		for m := 1; m <= 12; m++ {
+			for d := 1; d <= 30; d += 1 {
+				for h := 0; h < 24; h += 1 {
+					for mi := (d + h) % 11; mi < 60; mi += 11 {
+						n++
+						dts = append(dts, fmt.Sprintf("%04d-%02d-%02d %02d:%02d:%02d", y, m, d, h, mi, (d*h+mi)%60))
+					}
+				}
+			}
+		}
+	}
+	for h := 0; h < 25; h++ {
+		for mi := 0; mi < 61; mi++ {
+			for s := 0; s < 60; s++ {
+				times = append(times, fmt.Sprintf("%02d:%02d:%02d", h, mi, s))
+			}
+		}
+	}
+	idx := 0
+	for _, set := range []struct {
+		typ   string
+		cands []string
+	}{{"Date", dates}, {"ParseDate", dates}, {"DateTime", dts}, {"SystemTime", times}} {
+		for _, p := range collide.Pairs(set.cands, ev.Pick(3, 25)) {
+			idx++
+			if ev.Mine(idx) && !yield(textPair{p.Hash, set.typ, p.A, p.B}) {
+				return
+			}
+		}
+	}
+}
+
+func checkTextPair(c textPair) *rp.Fail {
+	ev.Case("hash-colliding-pair/"+c.Type, true, c.Hash+c.Type+c.A+"|"+c.B)
+	for _, order := range [][2]string{{c.A, c.B}, {c.B, c.A}} {
+		for _, text := range []string{order[0], order[1], order[0]} {
+			got, err, p := parseAs(c.Type, text)
+			if p != nil {
+				return rp.Failf("types."+c.Type+"/panic-on-bad-text", "parsing %q panicked: %v", text, p)
+			}
+			seq := fmt.Sprintf("(in the sequence %q, %q, %q - the two collide under %s)", order[0], order[1], order[0], c.Hash)
+			if !textValid(c.Type, text) {
+				if err == nil {
+					return rp.Failf("types."+c.Type+"/accepts-out-of-domain/after-colliding-input", "%q was accepted as %s %s", text, got, seq)
+				}
+				continue
+			}
+			if err != nil || !strings.HasPrefix(got, text) {
+				return rp.Failf("types."+c.Type+"/roundtrip/after-colliding-input", "%q parsed as %q, %v %s", text, got, err, seq)
+			}
+		}
+	}
+	return nil
 }
